@@ -97,3 +97,9 @@ impl From<&Config> for Cache {
         }
     }
 }
+
+#[cfg(kani)]
+#[allow(unused_imports, dead_code)]
+mod verif_harness {
+    include!(concat!(env!("HUMPHREY_VERIF"), "/kani/in_cache.rs"));
+}
